@@ -871,3 +871,4 @@ UNITS = [
     ("C19.build_fixed_volume_gas.mass_balance_and_pressure_sum_terms_of_each_gas_component", lambda twin=False: unit_build_gas("volume", twin)),
 ]
 from props.c19_ext2 import UNITS as _U2; UNITS = UNITS + _U2
+from props.c19_ext3 import UNITS as _U3; UNITS = UNITS + _U3
